@@ -365,7 +365,54 @@ BUILDERS: dict[str, Callable[[], Program]] = {
 }
 
 
+@onnx_function
+class BigConstBlock:
+    """Holds a large numpy constant that ends up inside a function body."""
+
+    def __init__(self, n: int, seed: int):
+        self.w = W((n,), seed)
+
+    def __call__(self, x):
+        return x * jnp.asarray(self.w) + 1.0
+
+
+def _big(name: str) -> Program:
+    _, n_s, k_s, variant, seed_s = name.split("-")
+    n, k, seed = int(n_s), int(k_s), int(seed_s)
+    ws = [W((n,), seed + 11 * i) for i in range(k)]
+    if variant == "fn":
+        blk = BigConstBlock(n, seed)
+
+        def fn(x):
+            acc = blk(x)
+            for w in ws[1:]:
+                acc = acc + x * w
+            return jnp.sum(acc), acc[:16]
+
+    elif variant == "loop":
+
+        def fn(x):
+            acc = lax.fori_loop(0, 2, lambda i, v: v * ws[0] + 1.0, x)
+            for w in ws[1:]:
+                acc = acc + x * w
+            return jnp.sum(acc), acc[:16]
+
+    else:
+
+        def fn(x):
+            acc = x * ws[0]
+            for w in ws[1:]:
+                acc = acc + x * w
+            return jnp.sum(acc), acc[:16]
+
+    return _p(name, fn, [(n,)])
+
+
 def build(group: str, name: str) -> Program:
+    if name.startswith("big-"):
+        prog = _big(name)
+        prog.pid = f"fx::{group}::{name}"
+        return prog
     prog = BUILDERS[name]()
     prog.pid = f"fx::{group}::{name}"
     return prog
